@@ -505,7 +505,7 @@ func c26Check(r *vlib.Run, g *c26Genesis, genesisDigest string, c c26Case) bool 
 			r.Violation("fuzz.GetState", "head-state-unavailable", "after="+name, fmt.Sprintf("%s: step %d %s, then GetState(head) fails: %s", seqs, i+1, c26Outcome(s), s.getErr), c)
 		} else {
 			if want, known := roots[s.head]; known && s.headRoot != want {
-				r.Violation("fuzz.GetState", "head-state-does-not-match-reported-root", "after="+name, fmt.Sprintf("%s: step %d %s; GetState(head) merklizes to %x, ImportBlock reported %x", seqs, i+1, c26Outcome(s), s.headRoot[:8], want[:8]), c)
+				r.Violation("fuzz.GetState", "head-state-does-not-match-reported-root", fmt.Sprintf("step-accepted=%v", s.accepted), fmt.Sprintf("%s: step %d %s; GetState(head) merklizes to %x, ImportBlock reported %x", seqs, i+1, c26Outcome(s), s.headRoot[:8], want[:8]), c)
 			}
 			if !s.accepted && (s.head != prevHead || s.headDigest != prevDigest) {
 				r.Violation("fuzz.ImportBlock", "head-state-changed-by-rejected-block", "rejected="+name, fmt.Sprintf("%s: step %d %s; GetState(head) was %s, now %s", seqs, i+1, c26Outcome(s), prevDigest, s.headDigest), c)
@@ -522,6 +522,7 @@ func c26Check(r *vlib.Run, g *c26Genesis, genesisDigest string, c c26Case) bool 
 	// (2) every block sent after a rejection gives the same result on a node that never
 	// saw the rejected blocks (fresh SetState + the blocks accepted so far + this block)
 	seenRejection := false
+	diverged := false
 	rejectedKinds := ""
 	for i, s := range steps {
 		if seenRejection {
@@ -546,17 +547,28 @@ func c26Check(r *vlib.Run, g *c26Genesis, genesisDigest string, c c26Case) bool 
 			clean := rep[len(rep)-1]
 			key := "then=" + c26EventNames[s.ev]
 			_ = rejectedKinds
+			prefixOK := true
+			for j, q := range rep[:len(rep)-1] {
+				if !q.accepted {
+					prefixOK = false
+					r.Violation("fuzz.ImportBlock", "accepted-block-rejected-on-replay", "", fmt.Sprintf("%s: clean node rejects previously accepted block %d: %s", seqs, j+1, q.err), c)
+				}
+			}
+			if !prefixOK {
+				break
+			}
 			if clean.accepted != s.accepted {
+				diverged = true
 				r.Violation("fuzz.ImportBlock", "accept-reject-differs-from-clean-node", key,
 					fmt.Sprintf("%s: step %d (%s) %s on the node that saw the rejected block(s) [%s], but %s on a fresh node given only the accepted blocks", seqs, i+1, c26EventNames[s.ev], c26Outcome(s), rejectedKinds, c26Outcome(clean)), c)
 			} else if s.accepted && (clean.root != s.root || clean.headDigest != s.headDigest) {
 				r.Violation("fuzz.ImportBlock", "state-differs-from-clean-node", key,
 					fmt.Sprintf("%s: step %d (%s) %s / head state %s on the node that saw the rejected block(s); %s / %s on a fresh node given only the accepted blocks", seqs, i+1, c26EventNames[s.ev], c26Outcome(s), s.headDigest, c26Outcome(clean), clean.headDigest), c)
 			}
-			for j, q := range rep[:len(rep)-1] {
-				if !q.accepted {
-					r.Violation("fuzz.ImportBlock", "accepted-block-rejected-on-replay", "", fmt.Sprintf("%s: clean node rejects previously accepted block %d: %s", seqs, j+1, q.err), c)
-				}
+			if diverged {
+				// the node's accepted history can no longer be reproduced on a clean node:
+				// later steps of this sequence are downstream of the divergence just reported
+				break
 			}
 		}
 		if !s.accepted {
@@ -622,8 +634,10 @@ func TestVerif_C26(t *testing.T) {
 	if d, _ := c26Digest(kv1); d != genesisDigest || root1 != root0 {
 		t.Fatalf("harness self-test: two rebuilds differ")
 	}
-	if st, ok, _, err := c26RunA(g, []int{c26EvChildEmpty, c26EvChildPre, c26EvSibling}); err != nil || !ok || !st[0].accepted || !st[1].accepted || !st[2].accepted {
-		t.Fatalf("harness self-test: valid blocks are not accepted on a clean node: %+v %v", st, err)
+	// (the block builder must be able to extend the chain; whether a fork block is
+	// accepted is the node's business and only compared differentially)
+	if st, ok, _, err := c26RunA(g, []int{c26EvChildEmpty, c26EvChildPre, c26EvChildEmpty}); err != nil || !ok || !st[0].accepted || !st[1].accepted || !st[2].accepted {
+		t.Fatalf("harness self-test: valid children are not accepted on a clean node: %+v %v", st, err)
 	}
 
 	var rc c26Case
